@@ -1,8 +1,29 @@
-//! C05 correspondence streams (stub).
-use crate::util::Opts;
+//! C05: data semantics of every defined encoding through the real `interpreter::run_next_op`.
+use crate::cpucase::*;
+use crate::util::{Opts, Rng};
 use std::io::Write;
 
-pub fn run(sub: &str, _opts: &Opts, _w: &mut dyn Write) {
-  eprintln!("stream c05.{} not implemented", sub);
-  std::process::exit(2);
+pub fn encodings() -> Vec<(u8, Option<u8>)> {
+  let mut v = Vec::new();
+  for b in 0..=255u8 {
+    if [0xd3, 0xdb, 0xdd, 0xe3, 0xe4, 0xeb, 0xec, 0xed, 0xf4, 0xfc, 0xfd].contains(&b) { continue; }
+    if b == 0xcb { for c in 0..=255u8 { v.push((0xcb, Some(c))); } } else { v.push((b, None)); }
+  }
+  v
+}
+
+pub fn run(_sub: &str, opts: &Opts, w: &mut dyn Write) {
+  let mut rng = Rng::new(opts.seed ^ 0xc05);
+  let (shard, nshards) = opts.shard();
+  let per = if opts.thorough { 4000 } else { 120 };
+  for (k, (b0, cb)) in encodings().into_iter().enumerate() {
+    if k % nshards != shard { for _ in 0..per { rng.next(); } continue; }
+    for _ in 0..per {
+      let b1 = cb.unwrap_or_else(|| byte(&mut rng));
+      let b2 = byte(&mut rng);
+      let ip = match rng.below(8) { 0 => 0xff80 + rng.below(0x7c) as u16, 1 => rng.below(0x3ff0) as u16, 2 => 0x4000 + rng.below(0x3ff0) as u16, _ => 0xc000 + rng.below(0x1ff0) as u16 };
+      let c = gen_case(&mut rng, [b0, b1, b2], ip, (0x03, 1, 3));
+      run_case("c05", &c, w);
+    }
+  }
 }
